@@ -31,6 +31,7 @@ type child struct {
 	port  int
 	proto string
 	errb  *strings.Builder
+	done  chan struct{} // closed when the process has ended
 }
 
 func startChild(proto string) (*child, error) {
@@ -67,6 +68,11 @@ func startChild(proto string) (*child, error) {
 	case <-time.After(10 * time.Second):
 		return nil, errors.New("child start timeout")
 	}
+	c.done = make(chan struct{})
+	go func() {
+		c.cmd.Wait()
+		close(c.done)
+	}()
 	time.Sleep(150 * time.Millisecond)
 	return c, nil
 }
@@ -74,7 +80,28 @@ func startChild(proto string) (*child, error) {
 func (c *child) stop() {
 	if c.cmd != nil && c.cmd.Process != nil {
 		c.cmd.Process.Kill()
-		c.cmd.Wait()
+		if c.done != nil {
+			<-c.done
+		}
+	}
+}
+
+// exitedWithin: the process ended (by itself: nobody has killed it yet) within d.  A server that is on its way out -- stack
+// dump, then exit -- may still answer one more probe on a busy machine.
+func (c *child) exitedWithin(d time.Duration) bool {
+	select {
+	case <-c.done:
+		return true
+	default:
+	}
+	if d <= 0 {
+		return false
+	}
+	select {
+	case <-c.done:
+		return true
+	case <-time.After(d):
+		return false
 	}
 }
 
@@ -293,6 +320,51 @@ func clip(s string) string {
 	return s
 }
 
+type culprit struct {
+	it  item
+	why string
+}
+
+// diesOf feeds the inputs to a fresh server child and says whether it ended (by itself, within a grace period) or stopped
+// answering.
+func diesOf(proto string, list []item, probe []byte, raw func(item) []byte) (bool, string, error) {
+	c, err := startChild(proto)
+	if err != nil {
+		return false, "", err
+	}
+	for _, it := range list {
+		c.send(raw(it))
+	}
+	died := c.exitedWithin(800*time.Millisecond) || !c.alive(probe)
+	why := firstLine(c.errb.String())
+	c.stop()
+	return died, why, nil
+}
+
+// findCulprits narrows a window of inputs down to the ones that end the server on their own (bisection on fresh children);
+// a window that only ends it as a whole is reported as a sequence.  At most *budget culprits are looked for.
+func findCulprits(proto string, list []item, probe []byte, raw func(item) []byte, budget *int) []culprit {
+	if len(list) == 0 || *budget <= 0 {
+		return nil
+	}
+	died, why, err := diesOf(proto, list, probe, raw)
+	if err != nil || !died {
+		return nil
+	}
+	if len(list) == 1 {
+		*budget--
+		return []culprit{{list[0], why}}
+	}
+	mid := len(list) / 2
+	l := findCulprits(proto, list[:mid], probe, raw, budget)
+	r := findCulprits(proto, list[mid:], probe, raw, budget)
+	if len(l)+len(r) == 0 && *budget > 0 {
+		*budget--
+		return []culprit{{item{desc: fmt.Sprintf("a sequence of %d inputs beginning with: %s", len(list), list[0].desc), body: list[0].body}, why}}
+	}
+	return append(l, r...)
+}
+
 func hostileMain(seed int64, n int, out string) error {
 	rng := rand.New(rand.NewSource(seed))
 	reqs := captureRequests(seed)
@@ -340,6 +412,50 @@ func hostileMain(seed int64, n int, out string) error {
 	rng.Shuffle(len(corpus), func(i, j int) { corpus[i], corpus[j] = corpus[j], corpus[i] })
 	if len(corpus) > n {
 		corpus = corpus[:n]
+	}
+	// every announced length in the arguments of every function, one more than it is, negative and huge: always all of them
+	// (the sample above is cut to n; which length mutants survive the cut must not be left to the shuffle)
+	seenFn := map[string]bool{}
+	for _, r := range reqs {
+		if seenFn[r.SFuncName] {
+			continue
+		}
+		seenFn[r.SFuncName] = true
+		args := make([]byte, len(r.SBuffer))
+		for i, x := range r.SBuffer {
+			args[i] = byte(x)
+		}
+		var lens []wire.LenPos
+		if _, err := wire.Split(args, &lens); err != nil {
+			continue
+		}
+		for _, lp := range lens {
+			for _, nv := range []int64{int64(lp.N + 1), int64(lp.N + 2), -1, 1<<31 - 1} {
+				var enc []byte
+				switch lp.Kind {
+				case "str1":
+					if nv < 0 || nv > 255 {
+						continue
+					}
+					enc = []byte{byte(nv)}
+				case "str4":
+					enc = []byte{byte(nv >> 24), byte(nv >> 16), byte(nv >> 8), byte(nv)}
+				default:
+					enc = wire.MkCount(nv)
+				}
+				ma := append(append(append([]byte(nil), args[:lp.Start]...), enc...), args[lp.End:]...)
+				// with and without room for what the length promises
+				for _, pad := range []int{0, 64} {
+					rq := r
+					b := append(append([]byte(nil), ma...), make([]byte, pad)...)
+					rq.SBuffer = make([]int8, len(b))
+					for i, x := range b {
+						rq.SBuffer[i] = int8(x)
+					}
+					corpus = append(corpus, item{fmt.Sprintf("hostile arguments for %s v1 (every announced length)", r.SFuncName), encodeReq(&rq)})
+				}
+			}
+		}
 	}
 	// well-formed packets whose header fields are what the server interprets before (and instead of) dispatching:
 	// every field through its boundary values, the message-type bits against the status keys they switch on.
@@ -390,45 +506,56 @@ func hostileMain(seed int64, n int, out string) error {
 			return fmt.Errorf("%s server child does not answer the probe: %s", proto, c.errb.String())
 		}
 		const batch = 25
+		raw := func(it item) []byte {
+			if strings.HasPrefix(it.desc, "datagram of") || strings.HasPrefix(it.desc, "raw length prefix") {
+				return it.body
+			}
+			return frame(it.body)
+		}
 		for i := 0; i < len(inputs); i += batch {
 			end := i + batch
 			if end > len(inputs) {
 				end = len(inputs)
 			}
-			raw := func(it item) []byte {
-				if strings.HasPrefix(it.desc, "datagram of") || strings.HasPrefix(it.desc, "raw length prefix") {
-					return it.body
-				}
-				return frame(it.body)
-			}
 			for _, it := range inputs[i:end] {
 				c.send(raw(it))
 			}
 			total += end - i
-			if c.alive(probe) {
+			if c.alive(probe) && !c.exitedWithin(0) {
 				continue
 			}
-			// somebody in this batch killed the server: find out who, one at a time on fresh children
+			// somebody killed the server: find out who, one at a time on fresh children.  The death may have been caused by
+			// the batch before (a server on its way out still answered that batch's probe), so both are gone through.
 			why := firstLine(c.errb.String())
 			c.stop()
-			for _, it := range inputs[i:end] {
-				c2, err := startChild(proto)
-				if err != nil {
-					return err
-				}
-				c2.send(raw(it))
-				if !c2.alive(probe) {
-					deaths++
-					w.Write(hostileRec{K: "net", Entry: proto + "-server", Desc: it.desc, BLen: len(it.body), Bytes: intsOf(raw(it)), Died: true, Why: firstLine(c2.errb.String())})
-				}
-				c2.stop()
+			from := i - 6*batch
+			if from < 0 {
+				from = 0
+			}
+			budget := 8
+			for _, f := range findCulprits(proto, inputs[from:end], probe, raw, &budget) {
+				deaths++
+				w.Write(hostileRec{K: "net", Entry: proto + "-server", Desc: f.it.desc, BLen: len(f.it.body), Bytes: intsOf(raw(f.it)), Died: true, Why: f.why})
 			}
 			_ = why
 			if c, err = startChild(proto); err != nil {
 				return err
 			}
 		}
-		c.stop()
+		if c.exitedWithin(1500*time.Millisecond) || !c.alive(probe) {
+			c.stop()
+			from := len(inputs) - 6*batch
+			if from < 0 {
+				from = 0
+			}
+			budget := 8
+			for _, f := range findCulprits(proto, inputs[from:], probe, raw, &budget) {
+				deaths++
+				w.Write(hostileRec{K: "net", Entry: proto + "-server", Desc: f.it.desc, BLen: len(f.it.body), Bytes: intsOf(raw(f.it)), Died: true, Why: f.why})
+			}
+		} else {
+			c.stop()
+		}
 		w.Write(hostileRec{K: "net-summary", Entry: proto + "-server", Desc: fmt.Sprintf("%d inputs", len(inputs)), BLen: len(inputs)})
 	}
 	ct, cd, err := hostileClientPhase(seed, rng, n, w)
